@@ -253,6 +253,7 @@ pub fn run(args: &[String]) -> i32 {
     let mut w = NdWriter::create(&args[1]);
     rt.block_on(async {
         let sched = AsyncSched::install();
+        sched.only(&["rx."]);
         sched.set_free_run(true);
         let listener = TcpListener::bind("127.0.0.1:0").await.expect("bind");
         let (epmd_port, _epmd) = fake_epmd(listener.local_addr().unwrap().port()).await;
